@@ -11,6 +11,8 @@ Streams of cases, all drawn from ctx.rng:
             VoSA(...).note_array() rows fed in as the value of the oracle
   key       estimate_key, three profile sets, every name  vs  statement (valid name, octave /
             rescale invariance, transposition equivariance) vs Model/C17_Key.v (near-ties skipped)
+  key_scale estimate_key on inputs SEARCHED for a small margin between their two best keys, as given
+            and with durations / onsets times 2^-20 .. 2^20, octave shifts   vs  the same string (exact)
   midi      load_score_midi on files built with mido      vs  multiset of (onset, pitch) written
   orders    estimate_spelling on arrays with unisons of different durations late in dense chromatic
             contexts, canonical order vs seven others (four of them sorted by (onset, pitch))
@@ -1391,6 +1393,297 @@ def run_key(ctx, K):
 
 
 # ----------------------------------------------------------------------------
+# 3b. key: scale dependence.  A correlation is scale free; multiplying every duration (every onset) by an exact power
+# of two multiplies every intermediate float of the histogram / mean / covariance / norm computation by a power of two
+# (no rounding changes as long as nothing under- or overflows: 2^-20 * 1/16 = 2^-24 and 2^20 * 300 * 16 are far inside
+# float32 and their squares far inside float64), so the answer must be the SAME STRING, exact ties and all -- no
+# tolerance.  A constant added anywhere (a guard against division by zero, a threshold "shorter than ... is ignored",
+# a normalisation by an absolute quantity) makes the ranking depend on the scale, visibly only where the two best
+# keys are close: the inputs are therefore SEARCHED on every run for a small top-two margin.
+
+KS_EXP = 20        # factors 2^-20 .. 2^20 (the statement says "rescaling all durations": no bound; see the header)
+
+
+def _margin_fast(rows, mat):
+    """(top-two margin | None for a constant histogram, best index, second index): float64, exact-grid durations."""
+    import numpy as np
+
+    x = np.zeros(12)
+    for o, d, p in rows:
+        x[p % 12] += d
+    if np.all(x == x[0]):
+        return None, 0, 0
+    with np.errstate(all="ignore"):
+        c = np.corrcoef(np.vstack([x[None, :], np.asarray(mat, dtype=float)]))[0, 1:]
+    o = np.argsort(c, kind="stable")
+    return float(c[o[-1]] - c[o[-2]]), int(o[-1]), int(o[-2])
+
+
+def gen_ambiguous(rng, mat):
+    """One candidate that musical sense says is ambiguous -> (rows on the 1/16 grid, family)."""
+    fam = rng.choice(["relative", "relative", "parallel", "pentatonic", "vamp", "vamp", "profile_mix", "profile_mix", "sparse", "tonal"])
+    t = rng.randint(0, 11)
+    reg = rng.choice([36, 48, 60, 72])
+    durs = [1, 2, 2, 3, 4, 4, 6, 8, 8, 12, 16, 24, 32]      # sixteenths
+
+    def P(pc):
+        p = reg + (pc - reg) % 12 + 12 * rng.choice([0, 0, 0, 1, -1])
+        return p if 21 <= p <= 108 else reg + (pc - reg) % 12
+
+    rows, o = [], 0
+
+    def add(pcs, d, chord=False):
+        nonlocal o
+        for pc in pcs:
+            rows.append((o / 16.0, d / 16.0, P(pc % 12)))
+            if not chord:
+                o += d
+        if chord:
+            o += d
+
+    major = [0, 2, 4, 5, 7, 9, 11]
+    if fam == "relative":          # a major key and its relative minor pull at the same notes
+        lam, mu = rng.uniform(0.15, 0.5), rng.uniform(0.15, 0.5)
+        for _ in range(rng.randint(4, 24)):
+            r = rng.random()
+            pcs = [0, 4, 7] if r < lam else [9, 0, 4] if r < lam + mu else major
+            add([t + rng.choice(pcs)], rng.choice(durs))
+    elif fam == "parallel":        # tonic and fifth, both thirds
+        for _ in range(rng.randint(4, 16)):
+            add([t + rng.choice([0, 0, 7, 7, 3, 4, 2, 5])], rng.choice(durs))
+    elif fam == "pentatonic":
+        pent = rng.sample([0, 2, 4, 7, 9], rng.randint(3, 5))
+        for _ in range(rng.randint(3, 12)):
+            add([t + rng.choice(pent)], rng.choice(durs))
+    elif fam == "vamp":            # two chords, again and again
+        a, b = rng.choice([([0, 4, 7], [9, 0, 4]), ([0, 4, 7], [5, 9, 0]), ([0, 3, 7], [3, 7, 10]), ([0, 3, 7], [10, 2, 5]),
+                           ([0, 4, 7], [2, 5, 9]), ([0, 3, 7], [7, 10, 2]), ([0, 4, 7], [7, 11, 2]), ([0, 7], [9, 4])])
+        da, db = rng.choice(durs), rng.choice(durs)
+        arp = rng.random() < 0.4
+        for _ in range(rng.randint(1, 4)):
+            add([t + x for x in a], da, chord=not arp)
+            add([t + x for x in b], db, chord=not arp)
+    elif fam == "profile_mix":     # between two rows of the profile matrix: one note per pitch class
+        import numpy as np
+        m = np.asarray(mat, dtype=float)
+        i = rng.randrange(len(m))
+        with np.errstate(all="ignore"):
+            cc = np.corrcoef(m)[i]
+        j = int(rng.choice([k for k in np.argsort(cc)[::-1][1:5]]))
+        lam = rng.uniform(0.35, 0.65)
+        for pc in rng.sample(range(12), 12):
+            add([pc], max(0, int(round(32 / float(m.max()) * (lam * m[i][pc] + (1 - lam) * m[j][pc])))))
+    elif fam == "sparse":          # one, two or three notes
+        for pc in rng.choice([[0], [0, 7], [0, 4], [0, 3], [0, 5], [0, 2], [0, 4, 9], [0, 7, 2], [0, 0, 7]]):
+            add([t + pc], rng.choice(durs))
+    else:
+        rows = [(int(o_ * 16) / 16.0, int(d * 16) / 16.0, p) for o_, d, p in gen_rows(rng, rng.randint(3, 30), 36, 96, tonal=True, zero_w=rng.choice([0, 0.1]))]
+    if rng.random() < 0.5:
+        rng.shuffle(rows)
+    return rows, fam
+
+
+def make_ambiguous(rng, mat, steps):
+    """gen_ambiguous, then a hill climb on single durations (sixteenth grid, zero allowed) towards a small margin
+    between the two best keys of THIS profile matrix.  -> rows, family, margin, best, second."""
+    rows, fam = gen_ambiguous(rng, mat)
+    m, a, b = _margin_fast(rows, mat)
+    for _ in range(steps):
+        if m is None or m < 2e-4:
+            break
+        i = rng.randrange(len(rows))
+        o, d, p = rows[i]
+        d2 = rng.choice([d + 1 / 16.0, d + 1 / 8.0, max(0.0, d - 1 / 16.0), max(0.0, d - 1 / 8.0), d * 2, d + 0.5] + ([d / 2] if (d * 8) == int(d * 8) else []))
+        if d2 == d or d2 > 64:
+            continue
+        cand = rows[:i] + [(o, d2, p)] + rows[i + 1:]
+        m2, a2, b2 = _margin_fast(cand, mat)
+        if m2 is not None and m2 < m:
+            rows, m, a, b = cand, m2, a2, b2
+    return rows, fam, m, a, b
+
+
+def _ks_apply(rows, unit, tr):
+    """the transformed rows; every product is exact (powers of two; integer layouts only scale up)."""
+    f, g, off = 2.0 ** tr.get("dur_exp", 0), 2.0 ** tr.get("onset_exp", 0), tr.get("onset_offset", 0)
+    sh = tr.get("octaves") or [0] * len(rows)
+    if unit[1] == "i4":
+        f, g = int(f), int(g)
+    return [(o * g + off, d * f, p + 12 * k) for (o, d, p), k in zip(rows, sh)]
+
+
+def key_scale_oracle(rows, unit, name, tr):
+    """-> (None | description, answer on rows, answer on the transformed rows)."""
+    try:
+        r0 = _key_call(rows, unit, name)
+        r1 = _key_call(_ks_apply(rows, unit, tr), unit, name)
+    except CpuBudgetExceeded as e:
+        return "estimate_key does not return: %s" % e, None, None
+    except Exception as e:
+        return "estimate_key(key_profiles=%r) raised %s: %s" % (name, type(e).__name__, str(e)[:200]), None, None
+    if r0 != r1:
+        what = []
+        if tr.get("dur_exp"):
+            what.append("all durations multiplied by 2**%d" % tr["dur_exp"])
+        if tr.get("onset_exp") or tr.get("onset_offset"):
+            what.append("all onsets multiplied by 2**%d and moved by %r" % (tr.get("onset_exp", 0), tr.get("onset_offset", 0)))
+        if any(tr.get("octaves") or []):
+            what.append("notes moved by octaves %r" % (tr["octaves"],))
+        return ("the estimated key depends on the scale: estimate_key gives %r, and %r with %s (exact powers of two: every "
+                "correlation is unchanged)" % (r0, r1, "; ".join(what))), r0, r1
+    return None, r0, r1
+
+
+def shrink_key_scale(case):
+    unit, name, tr = tuple(case["unit"]), case["key_profiles"], dict(case["transform"])
+    rows = [tuple(r) for r in case["rows"]]
+
+    def fails(sub, t=None):
+        t = dict(tr if t is None else t)
+        if t.get("octaves"):
+            t["octaves"] = [k for r, k in zip(rows, tr["octaves"]) if r in sub][:len(sub)]
+            if len(t["octaves"]) != len(sub):
+                return False
+        return key_scale_oracle(sub, unit, name, t)[0] is not None
+
+    try:
+        if not fails(rows):
+            return case
+        # (1) only one of the three transformations, if one is enough
+        for keep in ("dur_exp", "onset_exp", "octaves"):
+            t = {k: v for k, v in tr.items() if k == keep}
+            if t and key_scale_oracle(rows, unit, name, t)[0] is not None:
+                tr = t
+                break
+        # (2) fewer rows (octave shifts stay with their rows)
+        if not tr.get("octaves"):
+            rows = core.ddmin(rows, lambda sub: fails(sub))
+        # (3) the mildest factor that still shows it
+        if tr.get("dur_exp"):
+            s = 1 if tr["dur_exp"] > 0 else -1
+            for e in range(1, abs(tr["dur_exp"])):
+                t = dict(tr, dur_exp=s * e)
+                if key_scale_oracle(rows, unit, name, t)[0] is not None:
+                    tr = t
+                    break
+        out = dict(case, rows=[list(r) for r in rows], transform=tr, shrunk_from_rows=len(case["rows"]))
+        return out
+    except Exception:
+        return case
+
+
+def run_key_scale(ctx, K):
+    import numpy as np
+
+    rng = ctx.rng
+    try:
+        from partitura.utils.globals import VALID_KEY_PROFILES
+    except Exception:
+        VALID_KEY_PROFILES = sorted(PROFILE_SETS)
+    accepted = [None, None] + [a for a in VALID_KEY_PROFILES if a in PROFILE_SETS]
+    mats = _matrices()
+    ncand, climb = (330, 14) if ctx.tier == "quick" else (4000, 20)
+    units = [("sec", "f8"), ("sec", "f8"), ("sec", "f4"), ("sec", "f4"), ("beat", "f8"), ("beat", "f4"), ("beat", "f4"), ("quarter", "f4"),
+             ("beat", "f4", "sec"), ("sec", "f4", "tick"), ("beat", "f8", "quarter"), ("div", "i4"), ("tick", "i4")]
+    # minor rows of KEYS: read from the names the implementation gives them
+    minor = [nm.endswith("m") for nm in K["names"]]
+    nviol, kept_n = 0, [0, 0, 0]
+    mixed = [0, 0, 0]
+    terms, kept = [], []
+    for ci in range(ncand):
+        name = accepted[ci % len(accepted)]
+        setidx = 0 if name is None else PROFILE_SETS[name]
+        rows, fam, m, a, b = make_ambiguous(rng, mats[setidx], climb)
+        ctx.count("key_scale:candidates")
+        if m is not None and m >= 0.02:        # not ambiguous enough: the class needs a small margin
+            ctx.count("key_scale:candidate_dropped_margin_ge_0.02")
+            continue
+        kept_n[setidx] += 1
+        ctx.count("key_scale:family_" + fam)
+        ctx.count("key_scale:set%d" % setidx)
+        ctx.count("key_scale:margin_" + ("constant_histogram" if m is None else "exact_tie" if m == 0 else "lt_1e-3" if m < 1e-3 else "lt_5e-3" if m < 5e-3 else "lt_2e-2"))
+        if m is not None and len(minor) == 24 and minor[a] != minor[b]:
+            mixed[setidx] += 1
+            ctx.count("key_scale:best_two_are_a_major_and_a_minor_key")
+        unit = rng.choice(units)
+        ctx.count("key_scale:unit_%s_%s" % (unit[0], unit[1]))
+        if unit[1] == "i4":
+            rows = [(int(o * 16), int(d * 16), p) for o, d, p in rows]
+        n = len(rows)
+        lo, hi = min(p for o, d, p in rows), max(p for o, d, p in rows)
+
+        def octs(kind):
+            if kind == "all":
+                g = rng.choice([g for g in (-3, -2, -1, 1, 2, 3) if 21 <= lo + 12 * g and hi + 12 * g <= 108] or [0])
+                return [g] * n
+            return [rng.choice([k for k in (-2, -1, 0, 0, 1, 2) if 21 <= p + 12 * k <= 108]) for o, d, p in rows]
+
+        def e(lo_, hi_):
+            k = rng.randint(lo_, hi_)
+            if unit[1] == "i4":          # integer columns: upwards only, inside int32
+                k = min(abs(k), 18)
+            return k
+
+        trs = []
+        for lo_, hi_ in ((-KS_EXP, -13), (-12, -6), (-5, -1), (1, 8), (9, KS_EXP)):
+            tr = {"dur_exp": e(lo_, hi_)}
+            r = rng.random()
+            if r < 0.45:
+                tr["onset_exp"] = tr["dur_exp"]        # the piece played faster / slower
+            elif r < 0.6:
+                tr["onset_exp"] = e(-KS_EXP, KS_EXP)
+            trs.append(tr)
+        trs.append({"onset_exp": e(-KS_EXP, -6)})
+        trs.append({"onset_exp": e(6, KS_EXP), "onset_offset": rng.choice([0, 1, 2 ** 10, 2 ** 20]) if unit[1] != "f4" else 0})
+        trs.append({"octaves": octs("all")})
+        trs.append({"octaves": octs("each")})
+        trs.append({"dur_exp": e(-KS_EXP, -8), "octaves": octs("each")})
+        for tr in trs:
+            ctx.evaluations += 1
+            for k in ("dur_exp", "onset_exp"):
+                if tr.get(k):
+                    ctx.count("key_scale:%s_%s" % (k, "le_-13" if tr[k] <= -13 else "-12..-6" if tr[k] <= -6 else "-5..-1" if tr[k] < 0 else "1..8" if tr[k] <= 8 else "ge_9"))
+            if any(tr.get("octaves") or []):
+                ctx.count("key_scale:octave_shifts")
+            bad, r0, r1 = key_scale_oracle(rows, unit, name, tr)
+            if bad:
+                nviol += 1
+                ctx.count("key_scale:violations")
+                if nviol <= 3:
+                    case = shrink_key_scale({"kind": "key_scale", "rows": [list(r) for r in rows], "unit": list(unit), "key_profiles": name,
+                                             "transform": tr, "family": fam, "top_two_margin": m})
+                    bad2, r0, r1 = key_scale_oracle([tuple(r) for r in case["rows"]], unit, name, case["transform"])
+                    case["got"], case["got_transformed"] = r0, r1
+                    ctx.violation("key: " + (bad2 or bad), case)
+                break
+        else:
+            if m is not None:
+                ctx.nontrivial(("key_scale", tuple(rows), setidx))
+            # the model on the original and on one rescaled copy (exact comparison: only where float64 decides the order safely)
+            if m is not None and m >= 1e-9 and len(terms) < (120 if ctx.tier == "quick" else 1500):
+                tr = trs[rng.randrange(5)]
+                for rr in (rows, _ks_apply(rows, unit, tr)):
+                    stored = _rows_as_stored(rr, unit)
+                    ds = _ints([d for o, d, p in stored])
+                    terms.append(ctuple([core.copt(name, cstr), clist([ctuple([cz(stored[i][2]), cz(ds[i])]) for i in range(len(stored))]), cstr(r0)]))
+                    kept.append({"kind": "key_scale", "rows": [list(r) for r in rows], "unit": list(unit), "key_profiles": name, "transform": tr, "got": r0})
+            if n <= 6:
+                ctx.sample({"key_scale_case": {"rows": rows, "unit": list(unit), "key_profiles": name, "family": fam, "top_two_margin": m, "transforms": trs[:3], "answer": r0}}, limit=9)
+    need = 25 if ctx.tier == "quick" else 300
+    ctx.obligation("generator (key, scale dependence): for each of the three profile sets at least %d inputs whose two best correlations differ by "
+                   "less than 0.02 were found by search (kept %r; best two = one major and one minor key: %r), each re-estimated under ten "
+                   "power-of-two rescalings / octave shifts" % (need, kept_n, mixed), min(kept_n) >= need and min(mixed) >= need // 5, (kept_n, mixed))
+    ctx.log("key_scale: %r ambiguous inputs kept, %d to the model" % (kept_n, len(terms)))
+    failing = _coq_failing(ctx, "key_scale", "From PV Require Import Model.C17_Key Model.C17_KeyApi.", terms, "key_check_api", 60)
+    if failing is None:
+        return
+    ctx.obligation("correspondence: estimate_key = Model.C17_KeyApi.estimate_key_api on %d ambiguous arrays (top-two margin 1e-9 .. 0.02), each as "
+                   "given and with all durations multiplied by a power of two in 2^-20 .. 2^20" % len(terms), not failing, failing[:5])
+    for i in failing[:3]:
+        ctx.violation("key: implementation and model disagree on an ambiguous input or its rescaled copy", kept[i])
+
+
+# ----------------------------------------------------------------------------
 # 4. MIDI import
 
 
@@ -2020,6 +2313,14 @@ def run(ctx):
                 "matrices with ties (both modes), pairwise_cost on VSNote lists with sustained notes and skipped voices; "
                 "key: every row of every profile matrix as a piece, then random arrays (pitches 21..108 and narrower registers), every accepted "
                 "profile name in turn, one metamorphic variant (octave shifts / rescaling / transposition, all inside 21..108) per case; "
+                "key, scale dependence: 330 (thorough 4000) candidates of ten families that are ambiguous by construction (a major key and its relative "
+                "minor, parallel keys, pentatonic fragments, two-chord vamps block or arpeggiated, blends of two close rows of the profile matrix, one to "
+                "three notes, short tonal arrays; sixteenth grid, zero durations allowed), each hill-climbed on single durations towards a small margin "
+                "between its two best keys under the profile set used (default argument and every accepted name in turn); those with margin < 0.02 "
+                "(exact ties and constant histograms included) are estimated as given and under ten exact transformations: all durations times 2^k "
+                "with k drawn from -20..-13, -12..-6, -5..-1, 1..8, 9..20 (onsets scaled along, by another power, or not), onsets alone times 2^-20..2^20 "
+                "and moved, all notes / each note moved by octaves inside 21..108, both; thirteen layouts (sec and beat in f8 and f4, quarter, two-unit "
+                "arrays, div/tick as int32 scaled upwards only); the answer must be the same string; "
                 "midi: files built with mido from such arrays and from sweep points (pitches 21..108, 0..30% zero-length notes), 1..3 tracks, "
                 "channels 0/1/9, note ends as note_off or note_on velocity 0, MidiFile object or file on disk, all six part-voice modes, with/without "
                 "voice and key estimation; compared: the pitch multiset at the k-th distinct onset.  "
@@ -2040,7 +2341,7 @@ def run(ctx):
                 "a call that does not return is a violation.  "
                 "Non-trivial = spelling array with >= 2 rows that has an altered note or two rows of equal (onset, pitch); chroma array with >= 2 "
                 "chromas; voice array with >= 2 rows and more than one voice, a zero-duration note or a chord; cost matrix of >= 2 x 2; key array "
-                "with >= 3 pitch classes and a defined correlation; MIDI file with >= 2 notes of >= 2 pitch classes; order-stream array in which two "
+                "with >= 3 pitch classes and a defined correlation; ambiguous key input with a non-constant histogram; MIDI file with >= 2 notes of >= 2 pitch classes; order-stream array in which two "
                 "notes of equal (onset, pitch) are spelled differently; every history that was judged to the end.")
     ctx.trusted = ["Coq 8.16.1 kernel incl. vm_compute",
                    "harness/props/c17.py: generators, reflection BY VALUE of the ps13 tables (read off compute_morph_array by probing it with "
@@ -2067,7 +2368,7 @@ def run(ctx):
     nv0 = len(ctx.violations) + sum(ctx.known_hits.values())
     ctx.log("props: %s" % ("ok" if ok else "FAILED"))
     note_table_oracle(ctx, P["steps"])
-    for name, fn in (("spelling", run_spelling), ("spelling_orders", run_spelling_orders), ("chroma", run_chroma), ("voices", run_voices), ("contig", run_contig), ("key", lambda c: run_key(c, K)), ("midi", run_midi), ("histories", lambda c: run_histories(c, K))):
+    for name, fn in (("spelling", run_spelling), ("spelling_orders", run_spelling_orders), ("chroma", run_chroma), ("voices", run_voices), ("contig", run_contig), ("key", lambda c: run_key(c, K)), ("key_scale", lambda c: run_key_scale(c, K)), ("midi", run_midi), ("histories", lambda c: run_histories(c, K))):
         t0 = time.time()
         fn(ctx)
         ctx.log("%s stream done in %.1fs" % (name, time.time() - t0))
@@ -2116,6 +2417,11 @@ def replay(obj):
         parse_ok = {nm: (res is not None) for nm, res in K["parse"]}
         bad, res = key_oracle(rows, tuple(r["unit"]), r["key_profiles"], K["names"], parse_ok, r["variant"])
         print("estimate_key now gives:", res)
+        print("oracle:", bad or "property holds on this input")
+    elif kind == "key_scale":
+        rows = [tuple(x) for x in r["rows"]]
+        bad, r0, r1 = key_scale_oracle(rows, tuple(r["unit"]), r["key_profiles"], r["transform"])
+        print("estimate_key now gives:", r0, "-- on the transformed rows", _ks_apply(rows, tuple(r["unit"]), r["transform"]), ":", r1)
         print("oracle:", bad or "property holds on this input")
     elif kind == "chroma":
         import numpy as np
